@@ -1129,6 +1129,10 @@ func main() {
 	if lines := run.ReplayLines(); lines != nil {
 		var cur *job
 		for _, l := range lines {
+			if strings.HasPrefix(l, "nodewire") {
+				nodeWireLine(run, l)
+				continue
+			}
 			if strings.HasPrefix(l, "reset") {
 				cfg, err := parseReset(l)
 				if err != nil {
@@ -1142,6 +1146,13 @@ func main() {
 		}
 	} else {
 		n := run.N
+		if n > 0 {
+			k := 6
+			if run.Tier != "quick" {
+				k = 30
+			}
+			genNodeWire(run, hx.NewRng(run.Seed^0x0de1), k)
+		}
 		for i := 0; i < n; i++ {
 			seed := run.Seed*1000003 + uint64(i)
 			jobs = append(jobs, job{rng: func() *hx.Rng { return hx.NewRng(seed) }})
